@@ -172,7 +172,7 @@ def _eval_job(chunk):
     viol = []
     st = {'evaluations': 0, 'programs': 0, 'nontrivial': 0, 'texts': set(), 'item_mismatch': 0,
           'fallback_single': 0, 'zone_pads': 0}
-    for fam, way, position, cfgs, seqs in chunk:
+    for fam, way, position, cfgs, seqs in (it[:5] for it in chunk):
         src = program(seqs, way, position)
         exps = [printfmt.layout(elements(s)) for s in seqs]
         for cfg in cfgs:
@@ -238,18 +238,18 @@ def _recheck(case):
     return check_case(case)[0]
 
 
+def _recheck_any(case):
+    return c17_hist.recheck(case) if 'prog' in case else _recheck(case)
+
+
+def recheck_chunk(chunk):
+    return [(i, isolated(_recheck_any, case)) for i, case in chunk]
+
+
 def eval_chunk(chunk):
-    """nothing of qbee runs in the (long-lived) worker: each job in a child of its own"""
-    viol, stats = [], {}
-    for job in chunk:
-        v, st, log = isolated(_eval_job, [job])
-        viol += c17_run.classify(v, log, _recheck)
-        for k, x in st.items():
-            if isinstance(x, set):
-                stats.setdefault(k, set()).update(x)
-            else:
-                stats[k] = stats.get(k, 0) + x
-    return viol, stats
+    """worker side: nothing of qbee runs in the (long-lived) worker itself, each job
+    is evaluated in a child forked for it -> [(violations, stats, log)]"""
+    return [isolated(_eval_job, job) for job in chunk]
 
 
 def _chunks(lst, n):
@@ -279,26 +279,41 @@ def space(tier):
     short = [s for s in seqs if len(s) <= 3]
     vitems = []
     for way in WAYS:
-        for position in POSITIONS:
-            # (compile time is quadratic in the number of FOR blocks of a program)
-            for c in _chunks(short, 16 if position == 'for' else 111):
-                vitems.append(('variants', way, position, impl.CONFIGS, c))
+        for sl in _chunks(short, 111):
+            # one job = one way x one slice of sequences in all positions (they share source lines)
+            for position in POSITIONS:
+                # (compile time is quadratic in the number of FOR blocks of a program)
+                for c in _chunks(sl, 16 if position == 'for' else 111):
+                    vitems.append(('variants', way, position, impl.CONFIGS, c, (way, sl[0])))
     fams['variants'] = (vitems, {'max_len': 3, 'sequences': len(short), 'ways': WAYS,
                                  'positions': POSITIONS,
                                  'configs': [cfgname(c) for c in impl.CONFIGS]})
     return fams
 
 
-def run_history(chk, desc):
-    """family `history`; evaluated first, while no worker has done anything"""
+def make_jobs(name, items, tier):
+    """the items of a family cut into jobs (one forked child each)"""
+    if name == 'variants':
+        jobs = {}
+        for it in items:
+            jobs.setdefault(it[5], []).append(it)
+        return list(jobs.values())
+    n = 32 if tier == 'quick' or name == 'sequences7' else 48
+    return [items[k::n] for k in range(n) if items[k::n]]
+
+
+def run_history(chk, desc, results):
+    """family `history`"""
     refs = {}
     for viol, r in chk.pmap(c17_hist.ref_chunk, c17_hist.ALL, chunk=1):
-        chk.add_violations(viol)
+        results.append((viol, []))
         refs.update(r)
     jobs, d = c17_hist.space(chk.tier)
-    for viol, st in chk.pmap(c17_hist.hist_chunk, jobs, extra=(refs,), chunk=1):
-        chk.add_violations(viol)
-        chk.merge_stats(st)
+    for res in chk.pmap(c17_hist.hist_chunk, jobs, extra=(refs,), chunk=1):
+        for viol, st, log in res:
+            results.append((viol, log))
+            chk.merge_stats(st)
+    d['jobs'] = len(jobs) + len(c17_hist.ALL)
     chk.cov['evaluations'] += 12 * len(c17_hist.ALL)
     d['reference_texts'] = dict((c, r) for c, r in sorted(refs.items()))
     dist = []
@@ -322,25 +337,35 @@ def run_history(chk, desc):
 def run(chk):
     fams = space(chk.tier)
     desc = {}
+    results = []
     if not chk.only or 'history' in chk.only:
-        run_history(chk, desc)
+        run_history(chk, desc, results)
     else:
         chk.cov['exhaustive'] = False
+    jobs = []
     for name, (items, d) in fams.items():
         if chk.only and name not in chk.only:
             chk.cov['exhaustive'] = False
             continue
         d = dict(d)
         d['programs'] = sum(len(it[3]) for it in items)
+        mine = make_jobs(name, items, chk.tier)
+        d['jobs'] = len(mine)
         desc[name] = d
-        for viol, st in chk.pmap(eval_chunk, items, chunk=1):
-            chk.add_violations(viol)
-            chk.merge_stats(st)
+        jobs += mine
         for it in (items[0], items[len(items) // 2], items[-1]):
             s = it[4][len(it[4]) // 2]
             chk.sample({'family': name, 'way': it[1], 'position': it[2],
                         'statement': stmt_text(s, it[1]),
                         'model_text': printfmt.layout(elements(s))})
+    for res in chk.pmap(eval_chunk, jobs, chunk=1):
+        for viol, st, log in res:
+            results.append((viol, log))
+            chk.merge_stats(st)
+    def recheck_many(cases):
+        return dict(x for res in chk.pmap(recheck_chunk, list(enumerate(cases)), chunk=1) for x in res)
+
+    chk.add_violations(c17_run.classify_all(results, recheck_many))
     chk.cov['distinct_nontrivial'] = chk.cov.pop('nontrivial', 0)
     ntexts = len(chk.cov.get('_sets', {}).get('texts', ()))
     chk.assumptions = [
@@ -372,6 +397,9 @@ def replay(rec):
         c17_run.run_earlier(c)
     print('--- source (%s) ---' % cfgname(cfg))
     print(c['source'])
+    if c.get('fresh_process') == 'not-reevaluated':
+        print('(this case was not evaluated again on its own: it may need the programs that ran before it in '
+              'its job)')
     if 'prog' in c:
         return replay_history(c)
     seq = tuple(c['seq'])
